@@ -35,6 +35,7 @@ def dispatch (op : String) (args : List String) : String :=
   | "chain" => Pop.handleChain args
   | "iso" | "lin" | "smooth" => Resample.handle op args
   | "mst" => Mst.handle args
+  | "pair" => Mst.handlePair args
   | "views" => Views.handle args
   | "imgaxes" | "imggrid" | "imgedge" => Img.handle op args
   | "feat" => Feat.handle args
